@@ -160,9 +160,9 @@ theorem step_eLast {s s' : RState} : Inv s → step? true s .eLast = some s' →
       inv_close h hs
     · simp only [c1, c2, if_true, (hr c1 hd).1] at hs
       inv_close h hs
-    · simp only [c1, c2, if_true, hw c2 hd] at hs
+    · simp only [c1, c2, if_true] at hs
       inv_close h hs
-    · simp only [c1, c2, if_false] at hs
+    · simp only [c1, c2] at hs
       inv_close h hs
   · cases hs
 
@@ -182,9 +182,9 @@ theorem step_hLast {s s' : RState} : Inv s → step? true s .hLast = some s' →
       inv_close h hs
     · simp only [c1, c2, if_true, (hr c1 hd).1] at hs
       inv_close h hs
-    · simp only [c1, c2, if_true, hw c2 hd] at hs
+    · simp only [c1, c2, if_true] at hs
       inv_close h hs
-    · simp only [c1, c2, if_false] at hs
+    · simp only [c1, c2] at hs
       inv_close h hs
   · cases hs
 
@@ -226,5 +226,251 @@ theorem inv_reachable {s : RState} (h : Reachable true s) : Inv s := by
   induction h with
   | init => exact inv_init
   | step _ hs ih => exact inv_step ih hs
+
+/-! ## `run` and `Trace`, `Reachable` -/
+
+theorem trace_of_run {fixed : Bool} {ls : List Label} {s s' : RState} (h : run fixed s ls = some s') :
+    Trace fixed s ls s' := by
+  induction ls generalizing s with
+  | nil => simp [run] at h; subst h; exact Trace.nil _
+  | cons l ls ih =>
+    simp only [run] at h
+    split at h
+    · rename_i s1 h1; exact Trace.cons h1 (ih h)
+    · cases h
+
+theorem run_of_trace {fixed : Bool} {ls : List Label} {s s' : RState} (h : Trace fixed s ls s') :
+    run fixed s ls = some s' := by
+  induction h with
+  | nil => rfl
+  | cons h1 _ ih => unfold Step at h1; simp [run, h1, ih]
+
+theorem reachable_of_trace {fixed : Bool} {ls : List Label} {s s' : RState} (hr : Reachable fixed s)
+    (h : Trace fixed s ls s') : Reachable fixed s' := by
+  induction h with
+  | nil => exact hr
+  | cons h1 _ ih => exact ih (Reachable.step hr h1)
+
+theorem reachable_of_run {fixed : Bool} {ls : List Label} {s' : RState} (h : run fixed init ls = some s') :
+    Reachable fixed s' := reachable_of_trace Reachable.init (trace_of_run h)
+
+theorem reachable_iff_trace {fixed : Bool} {s : RState} :
+    Reachable fixed s ↔ ∃ ls : List Label, Trace fixed init ls s := by
+  constructor
+  · intro h
+    induction h with
+    | init => exact ⟨[], Trace.nil _⟩
+    | step _ hs ih =>
+      obtain ⟨ls, hl⟩ := ih
+      refine ⟨ls ++ [_], ?_⟩
+      clear * - hl hs
+      induction hl with
+      | nil => exact Trace.cons hs (Trace.nil _)
+      | cons h1 _ ih2 => exact Trace.cons h1 (ih2 hs)
+  · rintro ⟨ls, hl⟩; exact reachable_of_trace Reachable.init hl
+
+/-! ## (i) exclusive access to the waker slot and to the future/result storage -/
+
+/-- the waker slot is never the target of the next access of both threads -/
+theorem slot_exclusive {s : RState} (h : Reachable true s) :
+    ¬ (eAccessesSlot s = true ∧ hAccessesSlot s = true) := by
+  have i := inv_reachable h
+  obtain ⟨uaf0, bad0, deallocLe, dealloc1, count, eLast, hLast, sect, cancelled, routeRun, routeFin, completed, futStorage, futDrops, preResult, clearSharedSnap, dropFutureRoute, r1, r2, r3, r4, r5, r6, resLe, acc, w1, w2, w4, w5, cmpSnap, wakeSnap, hc2, ff, ffc, lk3, lk, lk4, hretT, hretF, hretG, ft, s3, ed1, ed2, d1, d5, d2, d3, d4⟩ := i
+  simp only [eAccessesSlot, hAccessesSlot]
+  grind
+
+/-- section form, executor side: when E is about to read or drop the slot, H is not at `will_wake`, at
+the write, nor before `finish_setting_waker::<true>` (if H is inside a SETTING_WAKER section at all,
+it is one that started after the task finished and that leaves through `finish_setting_waker::<false>`
+without touching the slot); E decided on a snapshot with HAS_WAKER and without SETTING_WAKER; the
+last-holder access happens when H is gone.
+NOTE: "the word has NOT_SETTING_WAKER whenever E is at a slot access" is FALSE and not needed: H may
+execute `start_setting_waker` while E sits between `finish_running` and `wake_by_ref`
+(see `example` `executor_at_wake_while_section_open` in Cex/C04.lean). -/
+theorem slot_section_executor {s : RState} (h : Reachable true s) (he : eAccessesSlot s = true) :
+    (s.hpc ≠ .compare ∧ s.hpc ≠ .write ∧ s.hpc ≠ .finishTrue) ∧
+    (s.epc = .wake ∨ s.epc = .dropSlot →
+      TaskState.hasWaker s.esnap = true ∧ TaskState.isSettingWaker s.esnap = false) ∧
+    (s.epc = .last → s.hpc = .done) := by
+  have i := inv_reachable h
+  obtain ⟨uaf0, bad0, deallocLe, dealloc1, count, eLast, hLast, sect, cancelled, routeRun, routeFin, completed, futStorage, futDrops, preResult, clearSharedSnap, dropFutureRoute, r1, r2, r3, r4, r5, r6, resLe, acc, w1, w2, w4, w5, cmpSnap, wakeSnap, hc2, ff, ffc, lk3, lk, lk4, hretT, hretF, hretG, ft, s3, ed1, ed2, d1, d5, d2, d3, d4⟩ := i
+  simp only [eAccessesSlot] at he
+  simp only [g_hasWaker, g_isSettingWaker]
+  grind
+
+/-- section form, handle side: H compares / writes the slot only inside its SETTING_WAKER section
+and then E is not at a slot access -/
+theorem slot_section_handle {s : RState} (h : Reachable true s) (hh : s.hpc = .compare ∨ s.hpc = .write) :
+    TaskState.isSettingWaker s.word = true ∧ eAccessesSlot s = false := by
+  have i := inv_reachable h
+  obtain ⟨uaf0, bad0, deallocLe, dealloc1, count, eLast, hLast, sect, cancelled, routeRun, routeFin, completed, futStorage, futDrops, preResult, clearSharedSnap, dropFutureRoute, r1, r2, r3, r4, r5, r6, resLe, acc, w1, w2, w4, w5, cmpSnap, wakeSnap, hc2, ff, ffc, lk3, lk, lk4, hretT, hretF, hretG, ft, s3, ed1, ed2, d1, d5, d2, d3, d4⟩ := i
+  simp only [eAccessesSlot, g_hasWaker, g_isSettingWaker]
+  grind
+
+/-- the SETTING_WAKER bit is exactly "H is between `start_setting_waker` and `finish_setting_waker`" -/
+theorem setting_waker_iff_in_section {s : RState} (h : Reachable true s) :
+    TaskState.isSettingWaker s.word = hInSection s := by
+  have i := inv_reachable h
+  obtain ⟨uaf0, bad0, deallocLe, dealloc1, count, eLast, hLast, sect, cancelled, routeRun, routeFin, completed, futStorage, futDrops, preResult, clearSharedSnap, dropFutureRoute, r1, r2, r3, r4, r5, r6, resLe, acc, w1, w2, w4, w5, cmpSnap, wakeSnap, hc2, ff, ffc, lk3, lk, lk4, hretT, hretF, hretG, ft, s3, ed1, ed2, d1, d5, d2, d3, d4⟩ := i
+  simp only [hInSection, g_isSettingWaker]
+  grind
+
+/-- the future/result storage is never the target of the next access of both threads -/
+theorem storage_exclusive {s : RState} (h : Reachable true s) :
+    ¬ (eAccessesStorage s = true ∧ hAccessesStorage s = true) := by
+  have i := inv_reachable h
+  obtain ⟨uaf0, bad0, deallocLe, dealloc1, count, eLast, hLast, sect, cancelled, routeRun, routeFin, completed, futStorage, futDrops, preResult, clearSharedSnap, dropFutureRoute, r1, r2, r3, r4, r5, r6, resLe, acc, w1, w2, w4, w5, cmpSnap, wakeSnap, hc2, ff, ffc, lk3, lk, lk4, hretT, hretF, hretG, ft, s3, ed1, ed2, d1, d5, d2, d3, d4⟩ := i
+  simp only [eAccessesStorage, hAccessesStorage]
+  grind
+
+/-- no read or drop of an uninitialised slot, no access to the storage in the wrong variant
+(poll / drop of a future that is not there, take / drop of a result that is not there) -/
+theorem no_bad_access {s : RState} (h : Reachable true s) : s.bad = 0 := (inv_reachable h).bad0
+
+/-! ## (ii) delivery of the wake-up -/
+
+/-- FIXED program: if the handle's last poll returned Pending with waker `w` and the task has completed and
+the executor is past `Task::run`'s wake decision, `w` has been woken -/
+theorem delivery {s : RState} (h : Reachable true s) : deliveryStatement s := by
+  intro w hp _ he
+  exact (inv_reachable h).d4 w hp he
+
+/-- while the handle is parked with `w` and the task has neither completed nor been dropped by the
+executor, `w` is the waker in the slot, HAS_WAKER is set and no section is open -/
+theorem pending_means_slot {s : RState} (h : Reachable true s) (w : Nat) (hp : s.parked = some w)
+    (hc : TaskState.isCompleted s.word = false)
+    (hd : s.epc = .idle ∨ s.epc = .poll ∨ s.epc = .finishRunning ∨ s.epc = .wake ∨ s.epc = .setDropped) :
+    s.slot = some w ∧ TaskState.hasWaker s.word = true ∧ TaskState.isSettingWaker s.word = false := by
+  have i := inv_reachable h
+  obtain ⟨uaf0, bad0, deallocLe, dealloc1, count, eLast, hLast, sect, cancelled, routeRun, routeFin, completed, futStorage, futDrops, preResult, clearSharedSnap, dropFutureRoute, r1, r2, r3, r4, r5, r6, resLe, acc, w1, w2, w4, w5, cmpSnap, wakeSnap, hc2, ff, ffc, lk3, lk, lk4, hretT, hretF, hretG, ft, s3, ed1, ed2, d1, d5, d2, d3, d4⟩ := i
+  simp only [g_hasWaker, g_isSettingWaker, g_isCompleted] at *
+  have := d2 w hp hc (by grind)
+  have := d1 (by simp [hp])
+  grind
+
+/-- when the executor reads the slot to wake and the handle is parked with `w`, it is `w` that is woken -/
+theorem wake_reads_parked_waker {s : RState} (h : Reachable true s) (w : Nat) (hp : s.parked = some w)
+    (he : s.epc = .wake) : s.slot = some w := (inv_reachable h).d3 w hp he
+
+/-! ## (iii) exactly-once accounting -/
+
+/-- the output is taken or dropped at most once; after deallocation exactly once iff the task completed -/
+theorem result_once {s : RState} (h : Reachable true s) :
+    s.resTaken + s.resDrops ≤ 1 ∧
+    (s.deallocs = 1 → (s.resTaken + s.resDrops = 1 ↔ TaskState.isCompleted s.word = true)) := by
+  have i := inv_reachable h
+  obtain ⟨uaf0, bad0, deallocLe, dealloc1, count, eLast, hLast, sect, cancelled, routeRun, routeFin, completed, futStorage, futDrops, preResult, clearSharedSnap, dropFutureRoute, r1, r2, r3, r4, r5, r6, resLe, acc, w1, w2, w4, w5, cmpSnap, wakeSnap, hc2, ff, ffc, lk3, lk, lk4, hretT, hretF, hretG, ft, s3, ed1, ed2, d1, d5, d2, d3, d4⟩ := i
+  simp only [g_isCompleted]
+  grind
+
+/-- the join handle's final poll returned `Ready(Some(_))` iff it took the output; `Ready(None)` only if cancelled -/
+theorem join_result {s : RState} (h : Reachable true s) :
+    (s.hret = some true ↔ s.resTaken = 1) ∧ (s.hret = some false → TaskState.isCancelled s.word = true) := by
+  have i := inv_reachable h
+  obtain ⟨uaf0, bad0, deallocLe, dealloc1, count, eLast, hLast, sect, cancelled, routeRun, routeFin, completed, futStorage, futDrops, preResult, clearSharedSnap, dropFutureRoute, r1, r2, r3, r4, r5, r6, resLe, acc, w1, w2, w4, w5, cmpSnap, wakeSnap, hc2, ff, ffc, lk3, lk, lk4, hretT, hretF, hretG, ft, s3, ed1, ed2, d1, d5, d2, d3, d4⟩ := i
+  simp only [g_isCancelled]
+  grind
+
+/-- the future is dropped at most once, and exactly once when the executor is through `Task::drop` -/
+theorem future_once {s : RState} (h : Reachable true s) :
+    s.futDrops ≤ 1 ∧ (s.epc = .dec ∨ s.epc = .last ∨ s.epc = .done → s.futDrops = 1) ∧
+    (s.futDrops = 0 ↔ s.storage = .future) := by
+  have i := inv_reachable h
+  obtain ⟨uaf0, bad0, deallocLe, dealloc1, count, eLast, hLast, sect, cancelled, routeRun, routeFin, completed, futStorage, futDrops, preResult, clearSharedSnap, dropFutureRoute, r1, r2, r3, r4, r5, r6, resLe, acc, w1, w2, w4, w5, cmpSnap, wakeSnap, hc2, ff, ffc, lk3, lk, lk4, hretT, hretF, hretG, ft, s3, ed1, ed2, d1, d5, d2, d3, d4⟩ := i
+  grind
+
+/-- the future is polled only while it is there (neither finished nor dropped) -/
+theorem poll_only_future {s : RState} (h : Reachable true s) (hp : s.epc = .poll) :
+    s.storage = .future ∧ TaskState.isCompleted s.word = false := by
+  have i := inv_reachable h
+  obtain ⟨uaf0, bad0, deallocLe, dealloc1, count, eLast, hLast, sect, cancelled, routeRun, routeFin, completed, futStorage, futDrops, preResult, clearSharedSnap, dropFutureRoute, r1, r2, r3, r4, r5, r6, resLe, acc, w1, w2, w4, w5, cmpSnap, wakeSnap, hc2, ff, ffc, lk3, lk, lk4, hretT, hretF, hretG, ft, s3, ed1, ed2, d1, d5, d2, d3, d4⟩ := i
+  simp only [g_isCompleted]
+  grind
+
+/-- deallocation happens at most once, exactly when both holders are done; nothing is accessed afterwards -/
+theorem dealloc_once {s : RState} (h : Reachable true s) :
+    s.deallocs ≤ 1 ∧ (s.deallocs = 1 ↔ (s.epc = .done ∧ s.hpc = .done)) ∧ s.uaf = 0 := by
+  have i := inv_reachable h
+  exact ⟨i.deallocLe, i.dealloc1, i.uaf0⟩
+
+/-- the reference count is the number of holders that have not released -/
+theorem count_is_holders {s : RState} (h : Reachable true s) :
+    TaskState.count s.word = (if s.epc = .last ∨ s.epc = .done then 0 else 1) +
+      (if s.hpc = .last ∨ s.hpc = .done then 0 else 1) := (inv_reachable h).count
+
+/-- every waker written into the slot is dropped from it, except the one that is in it -/
+theorem waker_slot_accounting {s : RState} (h : Reachable true s) :
+    s.slotSets = s.slotDrops + (if s.slot.isSome then 1 else 0) := (inv_reachable h).acc
+
+/-- HAS_WAKER and the slot: (a) HAS_WAKER ⇒ the slot is occupied (while allocated); (b) before the
+executor's `set_dropped` and with H not between its write and `finish_setting_waker::<true>`,
+HAS_WAKER ⇔ occupied; (c) an occupied slot without HAS_WAKER is either being handled by H (inside its
+section, before `finish<true>` re-asserts the bit), or about to be dropped by E (`Task::drop` saw
+HAS_WAKER ∧ ¬SETTING_WAKER), or it is the LEAK: the task completed, that waker has been woken, and
+`set_dropped` cleared HAS_WAKER while H was in a section that left through `finish<false>`. -/
+theorem waker_flag_slot {s : RState} (h : Reachable true s) :
+    (TaskState.hasWaker s.word = true → s.deallocs = 0 → s.slot.isSome = true) ∧
+    ((s.epc = .idle ∨ s.epc = .poll ∨ s.epc = .finishRunning ∨ s.epc = .wake ∨ s.epc = .setDropped) →
+      s.hpc ≠ .write → s.hpc ≠ .finishTrue → (s.slot.isSome = true ↔ TaskState.hasWaker s.word = true)) ∧
+    (∀ w : Nat, s.slot = some w → TaskState.hasWaker s.word = false → s.deallocs = 0 →
+      (s.hpc = .compare ∨ s.hpc = .write ∨ s.hpc = .finishTrue) ∨
+      ((s.epc = .clearShared ∨ s.epc = .dropFuture ∨ s.epc = .dropSlot) ∧
+        TaskState.isSettingWaker s.esnap = false ∧ TaskState.hasWaker s.esnap = true) ∨
+      (s.eroute = .completed ∧ w ∈ s.woken ∧ TaskState.isCancelled s.word = true)) := by
+  have i := inv_reachable h
+  obtain ⟨uaf0, bad0, deallocLe, dealloc1, count, eLast, hLast, sect, cancelled, routeRun, routeFin, completed, futStorage, futDrops, preResult, clearSharedSnap, dropFutureRoute, r1, r2, r3, r4, r5, r6, resLe, acc, w1, w2, w4, w5, cmpSnap, wakeSnap, hc2, ff, ffc, lk3, lk, lk4, hretT, hretF, hretG, ft, s3, ed1, ed2, d1, d5, d2, d3, d4⟩ := i
+  simp only [g_hasWaker, g_isSettingWaker, g_isCancelled]
+  refine ⟨w1, ?_, ?_⟩
+  · intro he; exact w5 (by grind)
+  · intro w hw hf hd
+    have := lk w hw hf hd
+    grind
+
+/-
+FULL statement (FALSE on the current code, see `waker_leak_counterexample` in Cex/C04.lean, finding F040):
+  theorem slot_dropped_at_dealloc {s} (h : Reachable true s) : s.deallocs = 1 → s.slot = none
+What holds: a waker still in the slot at deallocation (never dropped: leaked) occurs only on the
+completion path, and that waker has been woken; on the cancellation / executor-drop paths the slot is
+always empty at deallocation.
+-/
+theorem slot_dropped_at_dealloc_partial {s : RState} (h : Reachable true s) (hd : s.deallocs = 1) :
+    (∀ w : Nat, s.slot = some w → s.eroute = .completed ∧ w ∈ s.woken) ∧
+    (s.eroute ≠ .completed → s.slot = none ∧ s.slotSets = s.slotDrops) := by
+  have i := inv_reachable h
+  obtain ⟨uaf0, bad0, deallocLe, dealloc1, count, eLast, hLast, sect, cancelled, routeRun, routeFin, completed, futStorage, futDrops, preResult, clearSharedSnap, dropFutureRoute, r1, r2, r3, r4, r5, r6, resLe, acc, w1, w2, w4, w5, cmpSnap, wakeSnap, hc2, ff, ffc, lk3, lk, lk4, hretT, hretF, hretG, ft, s3, ed1, ed2, d1, d5, d2, d3, d4⟩ := i
+  refine ⟨fun w hw => lk4 w hw hd, fun hr => ?_⟩
+  have : s.slot = none := by
+    cases hs : s.slot with
+    | none => rfl
+    | some w => exact absurd (lk4 w hs hd).1 hr
+  simp [this] at acc
+  exact ⟨this, acc⟩
+
+/-! ## transitions that drop the future / poll it belong to the executor thread (any program, any state) -/
+
+theorem future_dropped_by_executor_only {fixed : Bool} {s s' : RState} {l : Label}
+    (hs : Step fixed s l s') (hne : s'.futDrops ≠ s.futDrops ∨ s'.polls ≠ s.polls) : l.actor = .E := by
+  unfold Step at hs
+  cases l <;> first
+    | rfl
+    | (exfalso
+       simp only [step?] at hs
+       split at hs
+       · simp only [touch, hLoop, hAfterFinishTrue, afterDecH, lastOf, dropSlotOf, dropResultOf] at hs
+         (repeat' (split at hs)) <;> (cases hs; simp at hne)
+       · cases hs)
+
+/-- the output is taken only by the handle thread -/
+theorem result_taken_by_handle_only {fixed : Bool} {s s' : RState} {l : Label}
+    (hs : Step fixed s l s') (hne : s'.resTaken ≠ s.resTaken) : l.actor = .H := by
+  unfold Step at hs
+  cases l <;> first
+    | rfl
+    | (exfalso
+       simp only [step?] at hs
+       split at hs
+       · simp only [touch, afterDecE, lastOf, dropSlotOf, dropResultOf, wakeSlotOf] at hs
+         (repeat' (split at hs)) <;> (cases hs; simp at hne)
+       · cases hs)
 
 end Compio.RemoteJoin
